@@ -604,6 +604,9 @@ def _class_to_name(cls: type[VectorProtocol]) -> str:
     raise AssertionError(repr(cls))
 
 
+_longitudinal_fields = ("z", "pz", "theta", "eta")
+_temporal_fields = ("t", "tau", "E", "e", "energy", "M", "m", "mass")
+
 # the vector class ############################################################
 
 
@@ -716,7 +719,9 @@ class VectorAwkward:
                 for name in fields:
                     if name not in (
                         "x",
+                        "px",
                         "y",
+                        "py",
                         "rho",
                         "pt",
                         "phi",
@@ -724,9 +729,9 @@ class VectorAwkward:
                         names.append(name)
                         arrays.append(self[name])
 
-            if "t" in fields or "tau" in fields:
+            if any(name in fields for name in _temporal_fields):
                 cls = cls.ProjectionClass4D
-            elif "z" in fields or "theta" in fields or "eta" in fields:
+            elif any(name in fields for name in _longitudinal_fields):
                 cls = cls.ProjectionClass3D
             else:
                 cls = cls.ProjectionClass2D
@@ -765,7 +770,9 @@ class VectorAwkward:
                 for name in ak.fields(self):
                     if name not in (
                         "x",
+                        "px",
                         "y",
+                        "py",
                         "rho",
                         "pt",
                         "phi",
@@ -831,7 +838,9 @@ class VectorAwkward:
                 for name in fields:
                     if name not in (
                         "x",
+                        "px",
                         "y",
+                        "py",
                         "rho",
                         "pt",
                         "phi",
@@ -843,7 +852,7 @@ class VectorAwkward:
                         names.append(name)
                         arrays.append(self[name])
 
-            if "t" in fields or "tau" in fields:
+            if any(name in fields for name in _temporal_fields):
                 cls = cls.ProjectionClass4D
             else:
                 cls = cls.ProjectionClass3D
@@ -894,7 +903,9 @@ class VectorAwkward:
                 for name in ak.fields(self):
                     if name not in (
                         "x",
+                        "px",
                         "y",
+                        "py",
                         "rho",
                         "pt",
                         "phi",
@@ -968,7 +979,9 @@ class VectorAwkward:
                 for name in ak.fields(self):
                     if name not in (
                         "x",
+                        "px",
                         "y",
+                        "py",
                         "rho",
                         "pt",
                         "phi",
